@@ -34,6 +34,7 @@ class LenClass:
         exactly one element per row (allow-listed idiom; the precondition 'one True per row' is
         audited on the shipped tables under C18) - there a masked gather keeps the row class"""
         self.rowwise = set(rowwise_select_funcs)
+        self.assume = {}        # vn(condition) -> polarity: resolve merges under an assumption
         self.I = interp
         self.g = interp.g
         self.memo: Dict[int, tuple] = dict(seeds or {})
@@ -142,6 +143,10 @@ class LenClass:
             return self.of(n.args[0])
         if op == "Phi":
             a, b = n.args[1], n.args[2]
+            if self.assume:
+                pol = self.assume.get(self.g.vn(n.args[0]))
+                if pol is not None:
+                    return self.of(a if pol else b)
             if a.op == "Const" and a.attr is None:
                 return self.of(b)
             if b.op == "Const" and b.attr is None:
@@ -187,9 +192,8 @@ class LenClass:
                 if idx.op == "Const" and idx.attr is Ellipsis:
                     return cb
                 if idx.op == "Tuple" and idx.args and idx.args[0].op == "Slice" and \
-                        all(a.op == "Const" and a.attr is None for a in idx.args[0].args) and \
-                        all(a.op == "Const" and a.attr is None for a in idx.args[1:]):
-                    return cb   # x[:, None]
+                        all(a.op == "Const" and a.attr is None for a in idx.args[0].args):
+                    return cb   # x[:, None], x[:, :, k]: the event axis (first axis) is untouched
                 return TOP
             ci = self.of(idx)
             if cb[0] in ("S", "TAB", "TOP") and is_def(ci):
@@ -228,6 +232,12 @@ class LenClass:
         if op == "NdIter":
             return TOP
         if op == "ListOf":
+            bag = n.extra.get("bag") if n.extra else None
+            if bag is not None and bag.op == "BagMap" and bag.args[0].op == "Bag":
+                seq = bag.args[0].args[0]
+                if seq.op == "Zip":
+                    return self._joinall(seq.args, n, "sequences zipped into one batch")
+                return self.of(seq)
             return TOP
         if op == "Attr":
             if n.attr in ("T", "real", "imag", "value", "data"):
@@ -242,6 +252,12 @@ class LenClass:
             if name in ("astype", "copy", "squeeze", "to", "to_value", "flatten",
                         "ravel", "conj", "round", "clip"):
                 return self.of(n.args[0])
+            if name == "reshape" and len(n.args) >= 2:
+                # reshape(rows, ...) with rows the length of a per-event array restores that population
+                c = self.count_of(n.args[1])
+                if c is not None and is_def(c):
+                    return c
+                return TOP
             if name in ("transform_to", "separation"):
                 return self._joinall(n.args, n, "astropy acts element-wise on time arrays")
             if name in ("sum", "mean", "min", "max", "std", "var", "any", "all", "item"):
@@ -342,6 +358,8 @@ class LenClass:
             return TOP
         if short == "searchsorted" and len(pos) >= 2:
             return self.of(pos[1])
+        if short in ("subtract.outer", "add.outer", "multiply.outer", "outer") and pos:
+            return self.of(pos[0])      # rows follow the first operand
         if short in ("arange",) and pos:
             c = self.count_of(pos[0])
             if c is not None:
